@@ -6,6 +6,12 @@ props=[json.loads(l) for l in open('/verif/properties.jsonl')]
 ids=[p['id'] for p in props]
 TB="trusted base: the gosym executor written for this task (validated by `gosym selftest` and by native replay of every counterexample), golang.org/x/tools/go/ssa v0.29.0, z3 4.8.12 / z3 5.1.0 / cvc5 1.0; environment stubs of DESIGN.md §3.6; bounds as listed in the evidence file"
 checks={
+ "C02": dict(level="model_checking", ref="§5 C02",
+   text="CharRecipe.Generate, buildCharacterList, requireFilter and golang-set are executed from their SSA for every recipe of a stated family (class flags symbolic, custom strings with duplicates, overlaps and multi-byte characters) with every random draw an SMT variable. A reference sampler written in the harness (duplicate-free alphabet; whole-candidate rejection; token j = alphabet[draw j of the accepted attempt]) is compared on the same draw log: exactly Length draws per attempt, each over the whole alphabet, a candidate is rejected iff it misses a required set, nothing is fixed up or reused. With C01 (each draw uniform on [0,n)) this is the uniform distribution on the valid strings. All draw values, including the last index and every accept/reject pattern within MaxTrials, are covered by the solver verdicts.",
+   technique="bounded symbolic execution of go/ssa + SMT (QF_BV) against a reference sampler, native replay"),
+ "C03": dict(level="model_checking", ref="§5 C03",
+   text="Same exploration as C02 with the validity assertions: Length one-character atom tokens, every character in (allowed ∪ required) minus excluded computed by a map-free reference, every required set that keeps a member is hit, Alphabet() sorted and exact. Thorough tier runs all 2^15 class-flag combinations. The draws are symbolic, so the rare draw (last alphabet index, a candidate meeting one of several requirements) is a value of a variable, not a sample.",
+   technique="bounded symbolic execution of go/ssa + SMT (QF_BV), native replay"),
  "C11": dict(level="model_checking", ref="§5 C11",
    text="MakeIndices, Kind and Tokenize (with strings.Split and the utf8 decoder from their own SSA) are executed symbolically on token sequences whose bytes and type bytes are SMT variables constrained only to be valid UTF-8; the round trip (values, types, entropy) and the documented index size are assertions decided for every byte value, so the byte-versus-character and uint8-truncation cases that no example-based test enumerates are covered within the stated token counts and lengths, including the 254/255/256-character boundary.",
    technique="bounded symbolic execution of go/ssa + SMT (QF_BV), native replay"),
